@@ -623,9 +623,10 @@ func (w *tWriter) finish() (f *tFile, err error) {
 
 // Drops the table.
 func (w *tWriter) drop() error {
-	if err := w.close(); err != nil {
-		return err
-	}
+	// The file is dropped even if closing it fails, otherwise it would be
+	// left behind: nobody else knows about it.
+	cerr := w.close()
+	w.w = nil
 	w.tw = nil
 	w.first = nil
 	w.last = nil
@@ -633,5 +634,5 @@ func (w *tWriter) drop() error {
 		return err
 	}
 	w.t.s.reuseFileNum(w.fd.Num)
-	return nil
+	return cerr
 }
